@@ -530,6 +530,7 @@ func (m *Machine) runPath(fn *ssa.Function, pfx Prefix, b Bounds, solver *smt.So
 		p.initModel = nil
 	}
 	p.sched = newSched()
+	m.raceActive = false
 	p.stepBudget = b.MaxSteps
 	m.path = p
 	m.journaling = true
